@@ -148,7 +148,7 @@ NG = 16
     witness=[dict(g=0, d=0, a=1, b=2, flag=False), dict(g=4, d=2, a=0, b=0, flag=True)],
     doc="16 guards, each in both directions: set-operation arity (select counts a,b in 1..3), CASE without WHEN, second "
         "conflict handler in either order, WHERE after DO NOTHING, fieldless conflict WHERE, RETURNING on non-DML / foreign "
-        "table / aggregate, repeated one-shot calls (into, update, delete, create_table, drop_table, primary_key, for_, "
+        "table (alone or mixed with an own column in one expression) / aggregate, repeated one-shot calls (into, update, delete, create_table, drop_table, primary_key, for_, "
         "for_portion, rollup after MySQL rollup, window frame twice, as_select vs columns)",
 )
 def c14_guards(g: int, d: int, a: int, b: int, flag: bool) -> int:
@@ -219,7 +219,17 @@ def c14_guards(g: int, d: int, a: int, b: int, flag: bool) -> int:
         elif g == 7:  # RETURNING from a foreign table / aggregate; after a join without criterion
             if d != 2:
                 return SKIP
-            if a == 1:
+            if a == 1 and b == 2:  # an expression that mixes an own column with a foreign one (either operand order; INSERT / UPDATE)
+                if flag:
+                    got = expect(lambda: Q.into(t).insert(1).returning(t.a + u.a), (QueryException,))
+                else:
+                    got = expect(lambda: Q.update(t).set(t.a, 1).returning(u.a * 2 + t.b), (QueryException,))
+                must = True
+            elif a == 1 and b == 3:  # an expression over own columns only is fine
+                got = expect(lambda: (Q.into(t).insert(1).returning(t.a + t.b) if flag
+                                      else Q.update(t).set(t.a, 1).returning(t.a * 2 + t.b)).get_sql(dctx(d)), (QueryException,))
+                must = False
+            elif a == 1:
                 if flag:
                     got = expect(lambda: Q.into(t).insert(1).returning(u.a), (QueryException,))
                 else:
